@@ -134,6 +134,10 @@ DEVIATIONS = (
                                         # the first item of its scope
     'cut-escapes-group',                # ( ... ~ ... ) commits the option around the group
     'cut-lost-in-later-iteration',      # ~ in iteration >= 2 of a closure / in e after a separator
+    'open-list-spliced',                # a list that is the value of a multi-item group operand of a name /
+                                        # override (and hence of a rule whose value is such an override) is
+                                        # not closed: it is spliced when it is the first item of its scope and
+                                        # flattened when a second value is bound to the same name
 )
 
 _NOCUT, _CUT, _MAYBE = 0, 1, 2
@@ -163,12 +167,24 @@ def _strip(items):
     return items[i:] if i else items
 
 
+class _Open(list):
+    """(deviation emulation only) a list value the engine leaves open"""
+
+
+def _splice(items):
+    if items and isinstance(items[0], _Open):
+        return [*items[0], *items[1:]]
+    return items
+
+
 class _Acc(list):
     """a name's value that became a list because more than one item was bound (ast.rst) or `+:`"""
 
 
 def _add(old, v, force_list, present):
     if isinstance(old, _Acc):
+        return _Acc([*old, v])
+    if isinstance(old, _Open):
         return _Acc([*old, v])
     if not present or old is None:
         return _Acc([v]) if force_list else v
@@ -181,8 +197,12 @@ def _add(old, v, force_list, present):
 
 
 def _plain(v):
-    if isinstance(v, _Acc):
+    if isinstance(v, (_Acc, _Open)):
         return [_plain(x) for x in v]
+    if type(v) is list:
+        return [_plain(x) for x in v]
+    if type(v) is dict:
+        return {k: _plain(x) for k, x in v.items()}
     return v
 
 
@@ -315,6 +335,7 @@ class _Evaluator:
         self.dev_nodef = 'names-undefined-unless-sequence' in self.dev
         self.dev_none = 'none-dropped-at-frame-start' in self.dev
         self.dev_cutlost = 'cut-lost-in-later-iteration' in self.dev
+        self.dev_open = 'open-list-spliced' in self.dev
         self.active = set()  # (rule, pos) being evaluated: re-entry = left recursion
         self.pat_cache = {}
         self.used_policy = set()  # which open aspects were actually exercised
@@ -450,10 +471,14 @@ class _Evaluator:
             if type(r) is tuple:
                 p, items, binds, cut = r
                 d = self._defs(o)
+                if epsilon and self.dev_nodef and o[0] in ('opt', 'closure', 'join', 'gather'):
+                    d = None  # Optional.optimized() drops the outer optional
                 if d:
                     binds = [d, *binds]
                 if self.dev_none:
                     items = _strip(items)
+                if self.dev_open:
+                    items = _splice(items)
                 return p, items, binds, _NOCUT
             if r == _CUT:
                 return _NOCUT
@@ -511,6 +536,8 @@ class _Evaluator:
             b = [d, *b]
         if self.dev_none:
             i = _strip(i)
+        if self.dev_open:
+            i = _splice(i)
         return p, shape(i), b, c
 
     def _more(self, body, sep, keepsep, pos, values, binds, first):
@@ -660,6 +687,8 @@ class _Evaluator:
         if type(r) is not tuple:
             return r, None
         v = UNSPEC if _operand_unspecified(e) else shape(r[1])
+        if self.dev_open and type(v) is list and len(r[1]) > 1:
+            v = _Open(v)
         return r, v
 
     def e_named(self, e, pos):
@@ -727,6 +756,8 @@ class _Evaluator:
             binds = [d, *binds]
         if self.dev_none:
             items = _strip(items)
+        if self.dev_open:
+            items = _splice(items)
         value = self.rule_value(body, items, binds)
         if 'name' in flags:
             if value is UNSPEC or has_unspec(value):
@@ -764,6 +795,8 @@ class _Evaluator:
             elif op == 'ovl':
                 O = _Acc([b[1]]) if O is _UNSET else _add(O, b[1], True, True)
         if O is not _UNSET:
+            if self.dev_open and isinstance(O, (_Acc, _Open)):
+                return _Open(_plain(O))
             return _plain(O)
         if B:
             for n in under_la:
@@ -773,6 +806,8 @@ class _Evaluator:
                 for n in _names_under(body, ('skipgroup',)):
                     if n in B and (B[n] is None or (isinstance(B[n], _Acc) and not B[n])):
                         B[n] = UNSPEC  # not captured: present as None / [] or absent
+            if all(v is UNSPEC for v in B.values()):
+                return UNSPEC  # whether the rule "has named elements" at all is then open as well
             return {k: _plain(v) for k, v in B.items()}
         return shape(items)
 
@@ -786,7 +821,7 @@ def _outcome(ev, start):
         raise Unsupported('recursion depth') from None
     if r is None:
         return Fail()
-    return Ok(r[0], r[1])
+    return Ok(_plain(r[0]), r[1])
 
 
 def evaluate(grammar_desc, text, start=None, **config):
